@@ -90,6 +90,14 @@ class SymFactory(object):
     def view(self, arr, key):
         return self.ip.arr_index(arr, key)
 
+    def scale_inplace(self, arr, c):
+        """arr *= c  (the caller of a library function edits, in place, an array the library handed out)."""
+        from .arr import store_write
+        from .sym import mk_mul, to_real
+        snap = arr.snapshot(self.st)
+        store_write(self.st, arr, lambda vi: mk_mul(to_real(snap(vi)), to_real(c)))
+        return arr
+
     def reshape(self, arr, shape):
         return self.ip.reshape(arr, shape)
 
@@ -368,6 +376,10 @@ class ConcFactory(object):
     def view(self, arr, key):
         return arr[key]
 
+    def scale_inplace(self, arr, c):
+        arr *= c
+        return arr
+
     def reshape(self, arr, shape):
         return arr.reshape(shape)
 
@@ -525,6 +537,9 @@ class PrefixFactory(object):
     def opt(self, name, val):
         return self._f.opt(self._p + name, val)
 
+    def scale_inplace(self, *a, **k):
+        return self._f.scale_inplace(*a, **k)
+
     def enum_sym(self, name, *a, **k):
         return self._f.enum_sym(self._p + name, *a, **k)
 
@@ -549,6 +564,23 @@ def history_builder(build, method, mutable, self_key='self'):
         out[self_key] = obj
         return out
     return hbuild
+
+
+def history_inplace_builder(build, method, mutable, self_key='self'):
+    """Pre-state family 'the same object was evaluated before and the arrays it holds in its public attributes were
+    then modified *in place*' (U *= 0.5, U[mask] = ...): catches caches validated by object identity."""
+    def ibuild(f):
+        a = build(f)
+        obj = a[self_key]
+        f.call(obj, method, **dict((k, v) for k, v in a.items() if k != self_key and not k.startswith('_')))
+        for attr in mutable:
+            v = f.getattr(obj, attr)
+            if getattr(v, 'val', None) is not None and hasattr(v, 'isnone'):
+                continue                      # optional attribute: the re-assignment family covers it
+            if hasattr(v, 'shape') and not isinstance(v, (int, float)):
+                f.scale_inplace(v, f.real('hi!c_%s' % attr))
+        return a
+    return ibuild
 
 
 def other_instance_builder(build, method, self_key='self'):
